@@ -275,6 +275,128 @@ pub fn run(ctx: &Ctx) {
     ctx.bound(sub, "2^5 flag combinations x {file argument, --stdin} x {stdout, output file, unwritable output file} x 14 input kinds (combinations the CLI cannot express are skipped)", true);
     ctx.sample(sub, json!({"args": ["--style", "compressed", "--no-unicode", "runtimeerr.scss"], "oracle": "exit != 0, stderr = library's rendered error, stdout empty"}));
 
+    // ---- load paths keep the order of the command line ----------------------------------------
+    {
+        let sub = "load-path-order";
+        for (d, w) in [("za", "za"), ("ab", "ab"), ("mm", "mm")] {
+            let _ = std::fs::create_dir_all(cwd.join(d));
+            if d != "mm" {
+                let _ = std::fs::write(cwd.join(d).join("_shadow.scss"), format!("$w: {};", w));
+            }
+            let _ = std::fs::write(cwd.join(d).join(format!("_only-{}.scss", d)), format!("$o-{}: {};", d, w));
+        }
+        let _ = std::fs::write(cwd.join("lporder.scss"), "@import \"shadow\";\na { w: $w; }\n");
+        let _ = std::fs::write(cwd.join("lporder2.scss"), "@use \"shadow\" as s;\n@use \"only-mm\" as o;\na { w: s.$w; o: o.$o-mm; }\n");
+        // every sequence of 1..3 directories out of {za, ab, mm}, repetitions allowed
+        let dirs = ["za", "ab", "mm"];
+        let mut seqs: Vec<Vec<&str>> = Vec::new();
+        for a in dirs {
+            seqs.push(vec![a]);
+            for b in dirs {
+                seqs.push(vec![a, b]);
+                for c in dirs {
+                    seqs.push(vec![a, b, c]);
+                }
+            }
+        }
+        let files = ["lporder.scss", "lporder2.scss"];
+        let n = (seqs.len() * files.len() * 2) as u64;
+        par(
+            ctx,
+            sub,
+            n,
+            |i| json!({"load_paths": seqs[(i as usize / 2) % seqs.len()], "file": files[i as usize / 2 / seqs.len()], "stdin": i % 2 == 1}),
+            |i, l| {
+                let via_stdin = i % 2 == 1;
+                let seq = &seqs[(i as usize / 2) % seqs.len()];
+                let file = files[i as usize / 2 / seqs.len()];
+                let mut args: Vec<String> = Vec::new();
+                for d in seq {
+                    args.push("--load-path".into());
+                    args.push(d.to_string());
+                }
+                let content = std::fs::read(cwd.join(file)).unwrap_or_default();
+                if via_stdin {
+                    args.push("--stdin".into());
+                } else {
+                    args.push(file.into());
+                }
+                let logger = CollectLogger::new();
+                let cfg = Cfg { syntax: None, load_paths: seq.iter().map(|s| s.to_string()).collect(), quiet: false, ..Cfg::default() };
+                let env = Env { fs: &grass_compiler::StdFs, logger: &logger };
+                let lib = if via_stdin { compile_env(&String::from_utf8_lossy(&content), &cfg, &env) } else { compile_path(file, &cfg, &env) };
+                l.evals += 2;
+                let r = run_cli(&bin, &cwd, &args, if via_stdin { Some(&content) } else { None });
+                l.outcome(digest(&r.stdout) ^ digest(&r.stderr));
+                l.validated += 1;
+                let key = format!("cli:lp-order:{}:{}", file, args.join(" "));
+                let detail = json!({"args": args, "exit": r.status, "stdout": String::from_utf8_lossy(&r.stdout), "stderr": String::from_utf8_lossy(&r.stderr).chars().take(400).collect::<String>(), "library": lib.brief()});
+                match &lib {
+                    Outcome::Ok(css) => {
+                        l.nontrivial += 1;
+                        if r.status != Some(0) || r.stdout != css.as_bytes() {
+                            ctx.violation(sub, &key, &format!("the CLI prints {:?} (exit {:?}); the library with the same load paths in the same order returns {:?}", String::from_utf8_lossy(&r.stdout), r.status, css), detail);
+                        }
+                    }
+                    Outcome::Err(e) => {
+                        if r.status == Some(0) || !r.stdout.is_empty() || String::from_utf8_lossy(&r.stderr) != format!("{}\n", e.rendered) {
+                            ctx.violation(sub, &key, &format!("the library fails ({}) but the CLI exits {:?} with stdout {:?}", e.message, r.status, String::from_utf8_lossy(&r.stdout)), detail);
+                        }
+                    }
+                    Outcome::Panic(p) => ctx.violation(sub, &key, &format!("library panicked: {}", p), detail),
+                }
+            },
+        );
+        ctx.bound(sub, "every sequence of 1..3 --load-path options over 3 directories (repetitions allowed; two of them shadow the same module) x {@import, @use} x {file argument, --stdin}: stdout equals the library's CSS for the same list in the same order", true);
+        ctx.sample(sub, json!({"args": ["--load-path", "za", "--load-path", "ab", "lporder.scss"], "expected": "a { w: za; }"}));
+    }
+
+    // ---- a failing write of the output file is an error ------------------------------------------
+    if std::path::Path::new("/dev/full").exists() {
+        let sub = "output-write-failure";
+        let sizes: Vec<(&str, usize)> = vec![("small", 1), ("8k", 400), ("64k", 3300), ("1m", 52000)];
+        for (name, rules) in &sizes {
+            let mut src = String::new();
+            for k in 0..*rules {
+                src.push_str(&format!(".r{} {{ p: v{}; }}\n", k, k));
+            }
+            let _ = std::fs::write(cwd.join(format!("full-{}.scss", name)), src);
+        }
+        let n = (sizes.len() * 2 * 2) as u64;
+        par(
+            ctx,
+            sub,
+            n,
+            |i| json!({"size": sizes[(i as usize / 4) % sizes.len()].0, "compressed": i % 2 == 1, "target": if (i / 2) % 2 == 0 { "/dev/full" } else { "regular file (control)" }}),
+            |i, l| {
+                let (name, _) = sizes[(i as usize / 4) % sizes.len()];
+                let compressed = i % 2 == 1;
+                let control = (i / 2) % 2 == 1;
+                let target = if control { format!("out/full-{}.css", i) } else { "/dev/full".to_string() };
+                let args: Vec<String> = vec!["--style".into(), if compressed { "compressed" } else { "expanded" }.into(), format!("full-{}.scss", name), target.clone()];
+                l.evals += 1;
+                let r = run_cli(&bin, &cwd, &args, None);
+                l.outcome(digest(&r.stderr) ^ r.status.unwrap_or(-1) as u64);
+                l.validated += 1;
+                let detail = json!({"args": args, "exit": r.status, "stderr": String::from_utf8_lossy(&r.stderr).chars().take(300).collect::<String>()});
+                if control {
+                    let ok = r.status == Some(0) && std::fs::metadata(cwd.join(&target)).map(|m| m.len() > 0).unwrap_or(false);
+                    let _ = std::fs::remove_file(cwd.join(&target));
+                    if !ok {
+                        ctx.violation(sub, &format!("cli:write-control:{}:{}", name, compressed), "writing to a regular output file failed", detail);
+                    }
+                } else {
+                    l.nontrivial += 1;
+                    if r.status == Some(0) || r.stderr.is_empty() || !r.stdout.is_empty() {
+                        ctx.violation(sub, &format!("cli:write-failure:{}:{}", name, compressed), &format!("the output device is full: every write fails, yet the CLI exits {:?} with stderr {:?}", r.status, String::from_utf8_lossy(&r.stderr)), detail);
+                    }
+                }
+            },
+        );
+        ctx.bound(sub, "4 output sizes (one rule, 8 KiB, 64 KiB, 1 MiB) x 2 styles written to /dev/full (every write fails after a successful open) and, as control, to a regular file", true);
+        ctx.sample(sub, json!({"args": ["full-small.scss", "/dev/full"], "oracle": "exit != 0 and a message on stderr"}));
+    }
+
     if ctx.thorough() {
         let sub = "corpus-stdin";
         let corp: Vec<_> = corpus::load().into_iter().filter(|c| c.syntax == Syn::Scss && !c.input.contains("unique-id") && !c.input.contains("random(")).collect();
